@@ -33,6 +33,7 @@ def BP.withExt (s : BP α) (e : Ext) : BP α := { s with ext := e }
 structure Ind {β : Type} (m : P α β) (s : BP α) : Prop where
   ext : ∀ e, m (s.withExt e) = ((m s).1, (m s).2.withExt e)
   toks : (m s).2.toks = s.toks
+  cs : (m s).2.cs = s.cs
 
 /-- `m` does not depend on the extension set from any state -/
 structure IndA {β : Type} (m : P α β) : Prop where
@@ -43,7 +44,7 @@ variable {β γ : Type}
 
 theorem P_bind_run (m : P α β) (k : β → P α γ) (s : BP α) : (m >>= k) s = k (m s).1 (m s).2 := rfl
 
-theorem Ind.pure (a : β) (s : BP α) : Ind (Pure.pure a : P α β) s := ⟨fun _ => rfl, rfl⟩
+theorem Ind.pure (a : β) (s : BP α) : Ind (Pure.pure a : P α β) s := ⟨fun _ => rfl, rfl, rfl⟩
 
 theorem Ind.bind {m : P α β} {k : β → P α γ} {s : BP α} (hm : Ind m s)
     (hk : Ind (k (m s).1) (m s).2) : Ind (m >>= k) s := by
@@ -52,11 +53,18 @@ theorem Ind.bind {m : P α β} {k : β → P α γ} {s : BP α} (hm : Ind m s)
     rw [P_bind_run, hm.ext e, P_bind_run]
     exact hk.ext e
   · rw [P_bind_run, hk.toks, hm.toks]
+  · rw [P_bind_run, hk.cs, hm.cs]
 
 /-- bind with a fact about the first part (from a `Sat` lemma) -/
 theorem Ind.bindS {m : P α β} {k : β → P α γ} {s : BP α} {Q : β → BP α → Prop} (hm : Ind m s)
     (hq : Sat m s Q) (hk : ∀ a s', s'.toks = s.toks → Q a s' → Ind (k a) s') : Ind (m >>= k) s :=
   Ind.bind hm (hk _ _ hm.toks hq)
+
+/-- the same, also handing on that the character tables are unchanged -/
+theorem Ind.bindS' {m : P α β} {k : β → P α γ} {s : BP α} {Q : β → BP α → Prop} (hm : Ind m s)
+    (hq : Sat m s Q) (hk : ∀ a s', s'.toks = s.toks → s'.cs = s.cs → Q a s' → Ind (k a) s') :
+    Ind (m >>= k) s :=
+  Ind.bind hm (hk _ _ hm.toks hm.cs hq)
 
 /-- bind after a read-only first part -/
 theorem Ind.bindRO {m : P α β} {k : β → P α γ} {s : BP α} (hm : IndA m) (hro : (m s).2 = s)
@@ -74,6 +82,7 @@ theorem Ind.bindEq {m : P α β} {k : β → P α γ} {s : BP α} {a : β}
     rw [P_bind_run, hm e, P_bind_run, h0]
     exact hk.ext e
   · rw [P_bind_run, h0]; exact hk.toks
+  · rw [P_bind_run, h0]; exact hk.cs
 
 /-- a gate whose reading does not matter in this state -/
 theorem Ind.hasExtBind {flag : Nat} {k : Bool → P α β} {s : BP α}
@@ -86,6 +95,7 @@ theorem Ind.hasExtBind {flag : Nat} {k : Bool → P α β} {s : BP α}
     rw [run, run, hk, h0]
     exact h.ext e
   · rw [run, h0]; exact h.toks
+  · rw [run, h0]; exact h.cs
 
 theorem IndA.pure (a : β) : IndA (Pure.pure a : P α β) := ⟨fun s => Ind.pure a s⟩
 
@@ -103,27 +113,17 @@ theorem IndA.getBind {f : BP α → P α β} (h1 : ∀ s e, f (s.withExt e) = f 
     rw [run, run, h1]
     exact ((h2 s).all s).ext e
   · rw [run]; exact ((h2 s).all s).toks
+  · rw [run]; exact ((h2 s).all s).cs
 
 theorem IndA.modify {f : BP α → BP α} (h1 : ∀ s e, f (s.withExt e) = (f s).withExt e)
-    (h2 : ∀ s, (f s).toks = s.toks) : IndA (_root_.modify f : P α PUnit) := by
+    (h2 : ∀ s, (f s).toks = s.toks) (h3 : ∀ s, (f s).cs = s.cs) : IndA (_root_.modify f : P α PUnit) := by
   constructor
   intro s
   have run : ∀ s' : BP α, (_root_.modify f : P α PUnit) s' = (⟨⟩, f s') := fun _ => rfl
   constructor
   · intro e; rw [run, run, h1]
   · rw [run]; exact h2 s
-
-theorem IndA.set_of_get {f : BP α → BP α} (h1 : ∀ s e, f (s.withExt e) = (f s).withExt e)
-    (h2 : ∀ s, (f s).toks = s.toks) {k : PUnit → P α β} (hk : ∀ a, IndA (k a)) :
-    IndA (get >>= fun s => set (f s) >>= k) := by
-  constructor
-  intro s
-  have run : ∀ s' : BP α, (get >>= fun s => set (f s) >>= k) s' = k ⟨⟩ (f s') := fun _ => rfl
-  constructor
-  · intro e
-    rw [run, run, h1]
-    exact ((hk _).all _).ext e
-  · rw [run, ((hk _).all _).toks]; exact h2 s
+  · rw [run]; exact h3 s
 
 end rules
 
@@ -136,17 +136,19 @@ theorem panicWith_indA (site : String) : IndA (panicWith (α := α) site) := by
     by_cases h : s.panic.isNone <;> simp [h, BP.withExt]
   · intro s
     by_cases h : s.panic.isNone <;> simp [h]
+  · intro s
+    by_cases h : s.panic.isNone <;> simp [h]
 
 theorem pushEv_indA (ev : Ev α) : IndA (pushEv ev) := by
   unfold pushEv
-  exact IndA.modify (fun _ _ => rfl) (fun _ => rfl)
+  exact IndA.modify (fun _ _ => rfl) (fun _ => rfl) (fun _ => rfl)
 
 theorem perr_indA (k : String) (l : List Span) : IndA (perr (α := α) k l) := pushEv_indA _
 theorem pwarn_indA (k : String) (l : List Span) : IndA (pwarn (α := α) k l) := pushEv_indA _
 
 theorem setCur_indA (c : Nat) : IndA (setCur (α := α) c) := by
   unfold setCur
-  exact IndA.modify (fun _ _ => rfl) (fun _ => rfl)
+  exact IndA.modify (fun _ _ => rfl) (fun _ => rfl) (fun _ => rfl)
 
 /-- a computation that only reads fields other than the extension set -/
 theorem IndA.reader {β : Type} (f : BP α → β) (h : ∀ s e, f (s.withExt e) = f s) :
@@ -156,6 +158,7 @@ theorem IndA.reader {β : Type} (f : BP α → β) (h : ∀ s e, f (s.withExt e)
   have run : ∀ s' : BP α, (do let s ← get; return f s : P α β) s' = (f s', s') := fun _ => rfl
   constructor
   · intro e; rw [run, run, h]
+  · rw [run]
   · rw [run]
 
 theorem restToks_indA : IndA (restToks (α := α)) := IndA.reader _ (fun _ _ => rfl)
@@ -170,6 +173,7 @@ theorem currentOffset_indA : IndA (currentOffset (α := α)) := by
   intro s
   constructor
   · intro e; rw [currentOffset_run, currentOffset_run]; rfl
+  · rw [currentOffset_run]
   · rw [currentOffset_run]
 
 /-- leaves of `ind_auto`; extended by `macro_rules` as more pieces are proved -/
@@ -194,7 +198,7 @@ macro "ind_auto" : tactic => `(tactic|
   repeat' (first
     | with_reducible ind_leaf
     | focus ((with_reducible refine IndA.getBind ?_ ?_); (intro _ _; rfl))
-    | focus ((with_reducible refine IndA.modify ?_ ?_); (intro _ _; rfl); (intro _; rfl))
+    | focus ((with_reducible refine IndA.modify ?_ ?_ ?_); (intro _ _; rfl); (intro _; rfl); (intro _; rfl))
     | with_reducible apply IndA.bind
     | split
     | intro _
@@ -225,6 +229,8 @@ theorem nextToken_indA : IndA (nextToken (α := α)) := by
     cases s.toks[s.cur]? <;> rfl
   · rw [nextToken_run]
     cases s.toks[s.cur]? <;> rfl
+  · rw [nextToken_run]
+    cases s.toks[s.cur]? <;> rfl
 macro_rules | `(tactic| ind_leaf) => `(tactic| exact nextToken_indA)
 
 theorem bumpAny_indA : IndA (bumpAny (α := α)) := by
@@ -247,6 +253,8 @@ theorem untilK_indA (f : TK → Bool) : IndA (untilK (α := α) f) := by
     cases (s.toks.drop s.cur).findIdx? (fun t => f t.kind) <;> rfl
   · rw [untilK_run]
     cases (s.toks.drop s.cur).findIdx? (fun t => f t.kind) <;> rfl
+  · rw [untilK_run]
+    cases (s.toks.drop s.cur).findIdx? (fun t => f t.kind) <;> rfl
 macro_rules | `(tactic| ind_leaf) => `(tactic| exact untilK_indA _)
 
 theorem consumeWhile_indA (f : TK → Bool) : IndA (consumeWhile (α := α) f) := by
@@ -254,6 +262,7 @@ theorem consumeWhile_indA (f : TK → Bool) : IndA (consumeWhile (α := α) f) :
   intro s
   constructor
   · intro e; rw [consumeWhile_run, consumeWhile_run]; rfl
+  · rw [consumeWhile_run]
   · rw [consumeWhile_run]
 macro_rules | `(tactic| ind_leaf) => `(tactic| exact consumeWhile_indA _)
 
@@ -292,6 +301,10 @@ theorem Ind.withRecover {β : Type} {f : P α (Option β)} {s : BP α} (h : Ind 
     split
     · exact h.toks
     · exact h.toks
+  · rw [withRecover_run]
+    split
+    · exact h.cs
+    · exact h.cs
 
 theorem IndA.withRecover {β : Type} {f : P α (Option β)} (h : IndA f) : IndA (withRecover f) :=
   ⟨fun s => Ind.withRecover (h.all s)⟩
